@@ -1,6 +1,6 @@
 ; The subquery plan (DESIGN.md Appendix B), written from property statements C02/C03/C05/C06.
 ; A plan is a sequence of Sub records; Split folds the operators of a pipeline over it.
-(module-uses consts height spanof expr plan joincond view)
+(module-uses consts height spanof expr plan joincond view tabwf)
 
 ; the source a new subquery of this pipeline reads: the previous subquery of the pipeline, else the table
 (define-fun chainSrc ((p Seq_Sub) (start Int) (tbl Node)) Str
@@ -74,25 +74,6 @@
            (newSub p start tbl op nilSort nilTake)))))))
      :pattern ((SplitStep$ (FS f) sd sv p start tbl op)))))
 
-; ---- well-formedness of a tabular expression (what the parser owes, Appendix D)
-(declare-fun tabWF (Str Node) Bool)
-(declare-fun pipeOpWF (Str Node) Bool)
-(declare-fun opsWFL (Str Seq_Node Int) Bool)
-(define-fun flavorWF ((fl Node)) Bool
-  (or ((_ is nilp) fl) (and ((_ is mk_Ident) fl) (or (= (Ident.Name fl) "inner") (= (Ident.Name fl) "innerunique") (= (Ident.Name fl) "leftouter")))))
-(assert (forall ((s Str) (l Seq_Node) (n Int)) (! (= (opsWFL s l n) (ite (<= n 0) true (and (opsWFL s l (- n 1)) (pipeOpWF s (Seq_Node.nth l (- n 1)))))) :pattern ((opsWFL s l n)))))
-(assert (forall ((s Str) (e Node)) (! (= (tabWF s e) (and ((_ is mk_TabularExpr) e) (srcWF (TabularExpr.Source e)) (opsWFL s (TabularExpr.Operators e) (Seq_Node.len (TabularExpr.Operators e))))) :pattern ((tabWF s e)))))
-(assert (forall ((s Str) (op Node)) (! (= (pipeOpWF s op)
-   (or (and ((_ is mk_AsOperator) op) ((_ is mk_Ident) (AsOperator.Name op)))
-       (and ((_ is mk_SortOperator) op) (termsWF (SortOperator.Terms op) (Seq_Node.len (SortOperator.Terms op))))
-       (and ((_ is mk_TakeOperator) op) (exprWF (TakeOperator.RowCount op)))
-       (and ((_ is mk_TopOperator) op) (exprWF (TopOperator.RowCount op)) ((_ is mk_SortTerm) (TopOperator.Col op)) (exprWF (SortTerm.X (TopOperator.Col op))))
-       (and ((_ is mk_JoinOperator) op) (tabWF s (JoinOperator.Right op)) (flavorWF (JoinOperator.Flavor op))
-            (exprWFL (JoinOperator.Conditions op) (Seq_Node.len (JoinOperator.Conditions op))))
-       (and (or ((_ is mk_ProjectOperator) op) ((_ is mk_ExtendOperator) op) ((_ is mk_SummarizeOperator) op)
-                ((_ is mk_WhereOperator) op) ((_ is mk_CountOperator) op) ((_ is mk_RenderOperator) op))
-            (opWF s op)))) :pattern ((pipeOpWF s op)))))
-(lemma opsWFL-nth :induction n (forall ((s Str) (l Seq_Node) (n Int) (i Int)) (! (=> (and (opsWFL s l n) (<= 0 i) (< i n)) (pipeOpWF s (Seq_Node.nth l i))) :pattern ((opsWFL s l n) (Seq_Node.nth l i)))))
 ; every subquery of a plan can be written (precondition of write)
 (define-fun-rec subWF ((s Str) (u Sub)) Bool (and (opWF s (Sub.op u)) (sortWF (Sub.sort u)) (takeWF (Sub.take u))))
 (define-fun-rec planWF ((s Str) (p Seq_Sub) (n Int)) Bool
